@@ -24,7 +24,9 @@ type corpus struct {
 	Runner  string
 }
 
-const scratchMod = `module scratch
+var scratchMod = strings.NewReplacer("/repo", vc.RepoDir, "/verif/g", filepath.Join(vc.VerifDir, "g")).Replace(scratchModT)
+
+const scratchModT = `module scratch
 
 go 1.19
 
